@@ -253,7 +253,11 @@ func prefillValue(cs ColSpec, seed uint64, i int, col int) Value {
 	case KEnum:
 		return Value{S: enumAlphabet[h%uint64(len(enumAlphabet)-1)]}
 	case KRecord:
-		return Value{S: recBytes(uint32(h), fmt.Sprintf("r%d", h%3))}
+		c := uint16(0)
+		if h%4 == 0 {
+			c = uint16(h>>8)%9 + 1
+		}
+		return Value{S: recBytes3(uint32(h), fmt.Sprintf("r%d", h%3), c)}
 	case KBool:
 		return Value{B: h & 1}
 	case KFloat32:
